@@ -22,7 +22,7 @@
                 characters are no word characters), so `John's`, `this.is`, `MP3s` are NOT excluded
 
      alnum text   every character is a word character (not an ASCII digit), an ASCII digit (that the tables call
-                  numeric), a blank, a punctuation / quote character other than  @ : [ ‘ ＇  — period,
+                  numeric), a blank, a punctuation / quote character other than  @ [ ‘ ＇  (phase 7: the colon is inside, `://` excluded: q_url) — period,
                   straight apostrophe and (phase 6) U+2019 allowed —, or a character no sub-lexer claims; none of the patterns occurs
      Rl u a c     as in C18LexDots (equal, or word characters with the same ASCII-letter key, or both unclaimed);
                   an ASCII digit is only related to itself
@@ -35,7 +35,7 @@
 Require Import Base Overlap OverlapProofs Tables_lexer Lexer Condense ListLemmas LexerProofs Shape C18LexStable C18PassesIC C18LexDots.
 From Coq Require Import Lia ZArith.
 
-Definition bad3 : list N := [64; 58; 91; 8216; 65287]%N.
+Definition bad3 : list N := [64; 91; 8216; 65287]%N.
 (* an apostrophe for the lexer: the straight one and U+2019, both Punctuation::Apostrophe; title-casing may
    write the first over the second (phase 6) *)
 Definition is_apo39 (c : N) : bool := ceq c 39 || ceq c 8217.
@@ -66,11 +66,16 @@ Definition q_hex (s : text) : bool :=
   | _ => false
   end.
 Definition q_here (u : uni) (s : text) : bool := q_plural u s || q_apos u s || q_hex s.
+(* phase 7: the colon is a character of the class; excluded, at EVERY position (no look-behind), is `://` —
+   where lex_url's lex_ip_schemepart starts.  Without it lex_url declines on every suffix (url_none3) and
+   `:` is the punctuation character Colon and nothing else *)
+Definition q_url (s : text) : bool :=
+  match s with c0 :: c1 :: c2 :: _ => ceq c0 58 && ceq c1 47 && ceq c2 47 | _ => false end.
 (* look-behind: the character before a pattern is not a word character *)
 Definition start_ok (u : uni) (prev : option N) : bool :=
   match prev with None => true | Some p => negb (wch u p) end.
 Fixpoint ctx_ok3 (u : uni) (prev : option N) (s : text) : bool :=
-  match s with [] => true | c :: r => negb (start_ok u prev && q_here u s) && ctx_ok3 u (Some c) r end.
+  match s with [] => true | c :: r => negb (q_url s) && negb (start_ok u prev && q_here u s) && ctx_ok3 u (Some c) r end.
 Definition alnum_text (u : uni) (s : text) : bool := forallb (char3 u) s && ctx_ok3 u None s.
 
 (* ---------- keys of x and of the hexadecimal letters, the float characters ---------- *)
@@ -313,7 +318,8 @@ Section Alnum.
   Lemma ctx_ok3_here prev c r : St prev (c :: r) ->
     q_plural u (c :: r) = false /\ q_apos u (c :: r) = false /\ q_hex (c :: r) = false.
   Proof.
-    intros [_ [H HB]]. cbn [ctx_ok3] in H. apply andb_prop in H. destruct H as [H _]. apply negb_true_iff in H.
+    intros [_ [H HB]]. cbn [ctx_ok3] in H. apply andb_prop in H. destruct H as [H _].
+    apply andb_prop in H. destruct H as [_ H]. apply negb_true_iff in H.
     destruct (start_ok u prev) eqn:SO.
     - cbn [andb] in H. unfold q_here in H. apply orb_false_elim in H. destruct H as [H H3]. apply orb_false_elim in H. tauto.
     - destruct prev as [p|]; [|discriminate]. cbn [start_ok] in SO. apply negb_false_iff in SO.
@@ -322,6 +328,38 @@ Section Alnum.
       { unfold ceq. destruct (N.eqb_spec c 48) as [->|_]; [discriminate HB|reflexivity]. }
       unfold q_plural, q_apos, q_hex. rewrite HB, C48.
       destruct r as [|c1 [|c2 r']]; repeat split; reflexivity.
+  Qed.
+
+  (* phase 7: no `://` anywhere behind the cursor, so lex_url declines: its first colon is not followed by `//` *)
+  Lemma ctx_ok3_no_url : forall n prev s, ctx_ok3 u prev s = true -> q_url (skipn n s) = false.
+  Proof.
+    intros n prev s H. pose proof (ctx_ok3_adv n prev s H) as H'.
+    destruct (skipn n s) as [|c r]; [reflexivity|].
+    cbn [ctx_ok3] in H'. apply andb_prop in H'. destruct H' as [H' _]. apply andb_prop in H'. destruct H' as [H' _].
+    apply negb_true_iff in H'. exact H'.
+  Qed.
+
+  Lemma position_skipn_c18 (p : N -> bool) : forall (l : list N) i, position p l = Some i ->
+    exists x t, skipn i l = x :: t /\ p x = true.
+  Proof.
+    induction l as [|x t IH]; intros i H; [discriminate|]. cbn [position] in H.
+    destruct (p x) eqn:Px.
+    - injection H as <-. exists x, t. split; [reflexivity|exact Px].
+    - destruct (position p t) as [j|] eqn:Pj; [|discriminate]. injection H as <-.
+      destruct (IH j eq_refl) as (y & t' & E & Py). exists y, t'. split; [exact E|exact Py].
+  Qed.
+
+  Lemma url_none3 prev (s : list N) : St prev s -> lex_url u s = None.
+  Proof.
+    intros [_ [HC _]]. unfold lex_url. destruct (position (ceq 58) s) as [sep|] eqn:P; [|reflexivity].
+    match goal with |- (if ?b then _ else _) = _ => destruct b; [reflexivity|] end.
+    destruct (position_skipn_c18 _ _ _ P) as (x & t & E & Px).
+    pose proof (ctx_ok3_no_url sep prev s HC) as Q. unfold text, char in *. rewrite E in Q.
+    assert (E1 : skipn (sep + 1) s = t).
+    { rewrite Nat.add_comm. rewrite <- (ListLemmas.skipn_skipn 1 sep s), E. reflexivity. }
+    rewrite E1. unfold ceq in Px. apply N.eqb_eq in Px. subst x.
+    unfold lex_ip_schemepart. destruct t as [|a [|b rest]]; try reflexivity.
+    cbn [q_url] in Q. change (ceq 58 58) with true in Q. cbn [andb] in Q. rewrite Q. reflexivity.
   Qed.
 
   Lemma dch_parts c : dch u c = true -> is_ascii_digit c = true /\ u_numeric u c = true.
@@ -457,7 +495,8 @@ Section Alnum.
     destruct (ceq c4 115) eqn:E4; cbn [negb]; [|reflexivity].
     unfold ceq in E3, E4. apply N.eqb_eq in E3, E4. subst c3 c4.
     pose proof (ctx_ok3_adv 3 prev _ HC) as H3. cbn [adv nth_error skipn] in H3.
-    cbn [ctx_ok3] in H3. apply andb_prop in H3. destruct H3 as [H3 _]. apply negb_true_iff in H3.
+    cbn [ctx_ok3] in H3. apply andb_prop in H3. destruct H3 as [H3 _].
+    apply andb_prop in H3. destruct H3 as [_ H3]. apply negb_true_iff in H3.
     assert (W2 : wch u c2 = false) by (unfold wch; rewrite D2; apply andb_false_r).
     cbn [start_ok] in H3. rewrite W2 in H3. cbn [negb andb] in H3.
     unfold q_here in H3. apply orb_false_elim in H3. destruct H3 as [H3 _]. apply orb_false_elim in H3.
@@ -491,7 +530,7 @@ Section Alnum.
     intros HD. pose proof HD as [HP _]. inversion HP as [|c' r' Pc Pr]; subst.
     assert (N91 : ceq c 91 = false).
     { unfold ceq. rewrite N.eqb_sym. apply (char3_not_bad c 91 Pc). cbn; tauto. }
-    assert (U : lex_url u (c :: r) = None) by (apply url_none, Alnum_noc; [exact HP|cbn; tauto]).
+    assert (U : lex_url u (c :: r) = None) by (apply (url_none3 prev), HD).
     assert (E : lex_email_address u (c :: r) = None) by (apply email_none, Alnum_noc; [exact HP|cbn; tauto]).
     pose proof (hex3 prev c r HD) as HX. pose proof (decade3 prev c r HD) as DX.
     destruct (char3_parts c Pc) as [_ Hcl].
@@ -898,6 +937,15 @@ Section Alnum.
       (proj1 (Rl_digit c2 d2 H2)). reflexivity.
   Qed.
 
+  Lemma q_url_congr s s' : Forall2 (Rl u) s s' -> q_url s' = q_url s.
+  Proof.
+    intros H. unfold q_url.
+    destruct H as [|c0 d0 l l' H0 H]; [reflexivity|]. destruct H as [|c1 d1 l l' H1 H]; [reflexivity|].
+    destruct H as [|c2 d2 l l' H2 H]; [reflexivity|].
+    rewrite (Rl_ceqr 58 c0 d0 (or_intror eq_refl) H0), (Rl_ceqr 47 c1 d1 (or_intror eq_refl) H1),
+      (Rl_ceqr 47 c2 d2 (or_intror eq_refl) H2). reflexivity.
+  Qed.
+
   Lemma start_ok_congr p p' : orel p p' -> start_ok u p' = start_ok u p.
   Proof.
     destruct p as [a|]; destruct p' as [c|]; cbn [orel start_ok]; try contradiction; [|reflexivity].
@@ -911,7 +959,8 @@ Section Alnum.
     cbn [ctx_ok3]. unfold q_here.
     pose proof (IH (Some a) (Some c) Hac) as E0. pose proof (q_plural_congr _ _ HF) as E1.
     pose proof (q_apos_congr _ _ HF) as E2. pose proof (q_hex_congr _ _ HF) as E3.
-    unfold text, char in *. rewrite E0, (start_ok_congr p p' Ho), E1, E2, E3. reflexivity.
+    pose proof (q_url_congr _ _ HF) as E4.
+    unfold text, char in *. rewrite E0, (start_ok_congr p p' Ho), E1, E2, E3, E4. reflexivity.
   Qed.
 
   Lemma ctx_ok3_congr0 s s' : Forall2 (Rl u) s s' -> ctx_ok3 u None s' = ctx_ok3 u None s.
@@ -965,7 +1014,7 @@ Proof.
   intros H. destruct (char2_parts u c H) as [_ [_ Hcl]].
   assert (M : mem_n c bad3 = false).
   { unfold mem_n, bad3. cbn [existsb]. rewrite !(N.eqb_sym c).
-    rewrite (char2_not_bad u c 64 H), (char2_not_bad u c 58 H), (char2_not_bad u c 91 H),
+    rewrite (char2_not_bad u c 64 H), (char2_not_bad u c 91 H),
       (char2_not_bad u c 8216 H), (char2_not_bad u c 65287 H); cbn; tauto. }
   unfold char3. rewrite M. cbn [negb andb].
   destruct Hcl as [W|[I|O]]; [rewrite W; reflexivity|rewrite I|rewrite O]; rewrite ?orb_true_r; reflexivity.
@@ -975,7 +1024,11 @@ Lemma dotted_ctx3 u : forall s prev, Forall (fun c => char2 u c = true) s -> ctx
 Proof.
   induction s as [|c r IH]; intros prev HP HC; [reflexivity|].
   inversion HP as [|c' r' Pc Pr]; subst. cbn [ctx_ok] in HC. apply andb_prop in HC. destruct HC as [HC0 HC1].
-  apply negb_true_iff in HC0. cbn [ctx_ok3]. pose proof (IH (Some c) Pr HC1) as E0. unfold text, char in *. rewrite E0, andb_true_r. apply negb_true_iff.
+  apply negb_true_iff in HC0. cbn [ctx_ok3]. pose proof (IH (Some c) Pr HC1) as E0. unfold text, char in *. rewrite E0, andb_true_r.
+  assert (QU : q_url (c :: r) = false).
+  { unfold q_url. destruct r as [|c1 [|c2 t]]; try reflexivity. unfold ceq at 1. rewrite N.eqb_sym.
+    rewrite (char2_not_bad u c 58 Pc); [reflexivity|cbn; tauto]. }
+  rewrite QU. cbn [negb andb]. apply negb_true_iff.
   apply andb_false_intro2.
   destruct (char2_parts u c Pc) as [_ [Dc _]].
   assert (A39 : forall c1 t, r = c1 :: t -> is_apo39 c1 = false).
@@ -1013,7 +1066,7 @@ Proof.
   intros H. destruct (plain_parts u c H) as [_ [Hd Hcl]].
   assert (M : mem_n c bad3 = false).
   { unfold mem_n, bad3. cbn [existsb]. rewrite !(N.eqb_sym c).
-    rewrite (plain_not_bad u c 64 H), (plain_not_bad u c 58 H), (plain_not_bad u c 91 H),
+    rewrite (plain_not_bad u c 64 H), (plain_not_bad u c 91 H),
       (plain_not_bad u c 8216 H), (plain_not_bad u c 65287 H); cbn; tauto. }
   unfold char3, wch. rewrite M, Hd. cbn [negb andb]. rewrite andb_true_r.
   destruct Hcl as [W|[I|O]]; [rewrite W; reflexivity|rewrite I|rewrite O]; rewrite ?orb_true_r; reflexivity.
@@ -1023,7 +1076,11 @@ Lemma plain_ctx3 u : forall s prev, Plain u s -> ctx_ok3 u prev s = true.
 Proof.
   induction s as [|c r IH]; intros prev HP; [reflexivity|].
   pose proof HP as HP0. inversion HP0 as [|c' r' Pc Pr]; subst.
-  cbn [ctx_ok3]. pose proof (IH (Some c) Pr) as E0. unfold text, char in *. rewrite E0, andb_true_r. apply negb_true_iff. apply andb_false_intro2.
+  cbn [ctx_ok3]. pose proof (IH (Some c) Pr) as E0. unfold text, char in *. rewrite E0, andb_true_r.
+  assert (QU : q_url (c :: r) = false).
+  { unfold q_url. destruct r as [|c1 [|c2 t]]; try reflexivity. unfold ceq at 1. rewrite N.eqb_sym.
+    rewrite (plain_not_bad u c 58 Pc); [reflexivity|cbn; tauto]. }
+  rewrite QU. cbn [negb andb]. apply negb_true_iff. apply andb_false_intro2.
   destruct (plain_parts u c Pc) as [_ [Dc _]].
   assert (A39 : forall c1 t, r = c1 :: t -> is_apo39 c1 = false).
   { intros c1 t ->. inversion Pr; subst. unfold is_apo39, ceq. rewrite !(N.eqb_sym c1).
